@@ -261,6 +261,76 @@ func (g *gen) kernelMatrix(ops []string, cmp bool, modes []string) {
 	}
 }
 
+// scalarTensorMatrix: the scalar operand is a rank-0 *tensor* (plain, a one-cell view, a view / clone of a view
+// sitting on a storage window of several cells) on either side of a one-element or larger tensor, in every
+// option mode; every tensor of the program is dumped afterwards (the scalar tensor and its parent must be untouched).
+func (g *gen) scalarTensorMatrix(ops []string, dts []string, modes []string) {
+	forms := [][]string{
+		{"new %s - C"},
+		{"new %s 6 C", "slice $0 5"},
+		{"new %s 3,2 C", "slice $0 0:3:3,0:1"},
+		{"new %s 3,2 C", "slice $0 0:3:3,0:1", "clone $1"},
+	}
+	others := []struct {
+		sh     []int
+		layout string
+	}{{[]int{1}, "contig"}, {[]int{1, 1, 1}, "contig"}, {[]int{3}, "contig"}, {[]int{2, 3}, "contig"}, {[]int{2, 3}, "sliced"}, {[]int{3, 2}, "lazyT"}}
+	for _, op := range ops {
+		for _, mode := range modes {
+			for fi, form := range forms {
+				for _, o := range others {
+					for _, left := range []bool{true, false} {
+						dt := g.r.pick(dts)
+						steps := []string{"vset=2"}
+						nv := 0
+						for _, f := range form {
+							if strings.Contains(f, "%s") {
+								f = fmt.Sprintf(f, dt)
+							}
+							steps = append(steps, f)
+							nv++
+						}
+						sc := nv - 1
+						t := g.operand(&steps, &nv, dt, o.sh, o.layout)
+						opts := ""
+						switch mode {
+						case "unsafe":
+							opts = " unsafe"
+						case "same":
+							opts = " same"
+						case "reuse", "incr", "reuse-same":
+							d := g.operand(&steps, &nv, dt, o.sh, "contig")
+							opts = fmt.Sprintf(" %s=$%d", map[bool]string{true: "incr", false: "reuse"}[mode == "incr"], d)
+							if mode == "reuse-same" {
+								opts += " same"
+							}
+						case "reuse=scalar":
+							if fi != 0 && fi != 3 {
+								continue
+							}
+							opts = fmt.Sprintf(" reuse=$%d", sc)
+						}
+						kw := "bin"
+						if op == "minb" || op == "maxb" {
+							kw = "mmb"
+						}
+						a, b := fmt.Sprintf("$%d", sc), fmt.Sprintf("$%d", t)
+						if !left {
+							a, b = b, a
+						}
+						steps = append(steps, fmt.Sprintf("%s %s fn %s %s%s", kw, op, a, b, opts))
+						nv++
+						for v := nv - 1; v >= 0; v-- {
+							steps = append(steps, fmt.Sprintf("dump $%d", v))
+						}
+						g.emit(steps...)
+					}
+				}
+			}
+		}
+	}
+}
+
 func (g *gen) pickShape() []int { return opShapes[g.r.intn(len(opShapes))] }
 
 // C06: elementwise arithmetic — coordinate-wise, exact, layout-blind.
@@ -270,6 +340,7 @@ func genC06(g *gen) {
 		n = 200
 	}
 	g.kernelMatrix(arithOps, false, []string{"safe", "unsafe", "reuse", "incr"})
+	g.scalarTensorMatrix([]string{"sub", "mul", "div", "minb"}, []string{"f64", "i32", "c64", "u8", "i64"}, []string{"safe"})
 	// systematic: every op x dtype x kind x via, with rotating layouts/shapes
 	for _, op := range arithOps {
 		for _, dt := range numDtypes {
@@ -330,6 +401,8 @@ func genC07(g *gen) {
 	dests := []string{"contig", "sliced", "contig", "lazyT"}
 	g.kernelMatrix(arithOps, false, []string{"safe", "unsafe", "reuse", "incr"})
 	g.kernelMatrix(cmpOps, true, []string{"safe", "same", "unsafe", "reuse-bool", "reuse-same"})
+	g.scalarTensorMatrix([]string{"sub", "mul", "maxb"}, []string{"f64", "i32", "c64", "u8", "i64"}, []string{"safe", "unsafe", "reuse", "incr", "reuse=scalar"})
+	g.scalarTensorMatrix([]string{"lt", "gte"}, []string{"f64", "i32", "u8", "i64"}, []string{"same", "unsafe", "reuse-same"})
 	for _, op := range []string{"minb", "maxb"} {
 		for _, mode := range []string{"safe", "unsafe", "reuse", "reuse=a", "reuse=b"} {
 			for _, kind := range []string{"TT", "TS", "ST"} {
@@ -385,6 +458,7 @@ func genC11(g *gen) {
 		n = 80
 	}
 	g.kernelMatrix(cmpOps, true, []string{"safe", "same", "unsafe", "reuse-bool", "reuse-same"})
+	g.scalarTensorMatrix([]string{"lt", "gte", "eq"}, []string{"f64", "i32", "u8", "i64"}, []string{"safe", "same", "unsafe", "reuse-same"})
 	for _, op := range cmpOps {
 		dts := ordDtypes
 		if op == "eq" || op == "ne" {
